@@ -1004,6 +1004,16 @@ theorem repartition_divisions_truthful_partial {α : Type} (key : α → Nat) (p
 
 example : concatMonoDivs [0, 3, 5] [7, 9, 9] = [0, 3, 7, 9, 9] := by decide
 
+-- `aligned_binary_truthful` instantiated: an index join of two co-aligned frames (rows = keys; output partition `j` holds the
+-- keys present on both sides)
+example : Truthful (fun (k : Nat) => k) [0, 3, 5] [[2], [3, 5]] :=
+  aligned_binary_truthful (fun k => k) (fun k => k) (fun k => k) [0, 3, 5] [[0, 2], [3, 5]] [[2, 2], [3, 4, 5]] [[2], [3, 5]]
+    ((truthfulB_iff _ _).mp (by decide)) ((truthfulB_iff _ _).mp (by decide)) rfl (by
+      intro j o l r ho hl hr x hx
+      match j with
+      | 0 => simp at ho hl; subst ho hl; simp at hx; subst hx; exact Or.inl ⟨2, by simp, rfl⟩
+      | 1 => simp at ho hl; subst ho hl; simp at hx; rcases hx with rfl | rfl <;> exact Or.inl ⟨_, by simp, rfl⟩
+      | n + 2 => simp at ho)
 -- non-vacuity of the hypotheses of `concat_monotonic_truthful`, `aligned_binary_truthful`,
 -- `repartition_divisions_truthful_partial`: concrete truthful frames
 example : Truthful (fun (k : Nat) => k) [0, 3, 5] [[0, 2], [3, 5]] := (truthfulB_iff _ _).mp (by decide)
